@@ -5,6 +5,15 @@
 
 package par2
 
+// specSliceCount is the number of slices of a file of byteCount bytes.
+func specSliceCount(byteCount, sliceByteCount int) int {
+	n := byteCount / sliceByteCount
+	if byteCount%sliceByteCount != 0 {
+		n++
+	}
+	return n
+}
+
 // Delegate callbacks are assumed not to touch gopar state or the filesystem
 // (true of every implementation in this repository).
 //@ iface-pure DecoderDelegate VerifyDelegate RepairDelegate EncoderDelegate CreateDelegate
@@ -151,7 +160,7 @@ package par2
 
 //@ pred decoderOK(d) = d.fileIO != nil && d.delegate != nil && d.sliceByteCount >= 4 && d.sliceByteCount % 4 == 0
 // infoOK: the file length is positive and is covered by exactly its slices.
-//@ pred infoOK(x, slice) = x.byteCount >= 1 && len(x.checksumPairs) >= 1 && x.byteCount / slice + ite(x.byteCount % slice != 0, 1, 0) == len(x.checksumPairs)
+//@ pred infoOK(x, slice) = specSliceCount(x.byteCount, slice) == len(x.checksumPairs)
 
 //@ func decoderInputFileInfoIDs
 //@   props C13 C19
@@ -161,11 +170,16 @@ package par2
 //@   props C13 C19 C06 C15
 //@   requires mapall(fileDescriptionPackets, v, v.byteCount >= 1 && safeName(v.filename)) && mapall(ifscPackets, v, len(v.checksumPairs) >= 1)
 //@   modifies nothing
-//@   ensures implies(result1 == nil, len(result0) == len(fileIDs) && forall(i, 0, len(result0), result0[i].byteCount >= 1 && len(result0[i].checksumPairs) >= 1 && safeName(result0[i].filename)))
+//@   ensures implies(result1 == nil, len(result0) == len(fileIDs))
+//@   ensures implies(result1 == nil, forall(i, 0, len(result0), result0[i].byteCount >= 1))
+//@   ensures implies(result1 == nil, forall(i, 0, len(result0), len(result0[i].checksumPairs) >= 1))
+//@   ensures implies(result1 == nil, forall(i, 0, len(result0), safeName(result0[i].filename)))
 //@   loop 0
 //@     invariant cap(decoderInputFileInfos) == 0 || fresh(decoderInputFileInfos)
 //@     invariant len(decoderInputFileInfos) == rangeindex + 1
-//@     invariant forall(i, 0, len(decoderInputFileInfos), decoderInputFileInfos[i].byteCount >= 1 && len(decoderInputFileInfos[i].checksumPairs) >= 1 && safeName(decoderInputFileInfos[i].filename))
+//@     invariant forall(i, 0, len(decoderInputFileInfos), decoderInputFileInfos[i].byteCount >= 1)
+//@     invariant forall(i, 0, len(decoderInputFileInfos), len(decoderInputFileInfos[i].checksumPairs) >= 1)
+//@     invariant forall(i, 0, len(decoderInputFileInfos), safeName(decoderInputFileInfos[i].filename))
 
 //@ lemma sliceCountCovers
 //@   props C13 C19 C06 C18
@@ -174,15 +188,26 @@ package par2
 //@   requires b >= 1 && s >= 1 && n == b / s + ite(b % s != 0, 1, 0)
 //@   ensures b <= n * s && b > (n - 1) * s && n >= 1
 
+//@ lemma sliceCountDef
+//@   props C13 C19 C06 C18 C15
+//@   mode int
+//@   forall b int, s int
+//@   ensures specSliceCount(b, s) == ite(b % s != 0, b / s + 1, b / s)
+
 //@ func newDecoder
 //@   props C13 C19 C06 C18 C15
+//@   opaque-fn specSliceCount
 //@   requires fileIO != nil && delegate != nil
 //@   ensures implies(gIOFailed && !old(gIOFailed), result1 != nil)
 //@   ensures implies(result1 == nil, result0 != nil && decoderOK(result0) && result0.numGoroutines == numGoroutines)
 //@   ensures implies(result1 == nil, forall(i, 0, len(result0.recoverySet), infoOK(result0.recoverySet[i], result0.sliceByteCount)))
-//@   ensures implies(result1 == nil, forall(i, 0, len(result0.recoverySet), safeName(result0.recoverySet[i].filename)) && result0.indexPath == indexPath)
+//@   ensures implies(result1 == nil, forall(i, 0, len(result0.recoverySet), result0.recoverySet[i].byteCount >= 1))
+//@   ensures implies(result1 == nil, forall(i, 0, len(result0.recoverySet), len(result0.recoverySet[i].checksumPairs) >= 1))
+//@   ensures implies(result1 == nil, forall(i, 0, len(result0.recoverySet), safeName(result0.recoverySet[i].filename)))
+//@   ensures implies(result1 == nil, result0.indexPath == indexPath)
 //@   loop 0
 //@     invariant forall(i, 0, rangeindex + 1, infoOK(recoverySet[i], sliceByteCount))
+//@     use-step sliceCountDef(info.byteCount, sliceByteCount)
 
 //@ func sixteenKHash
 //@   props C13 C19 C02 C05
